@@ -266,6 +266,41 @@ def _none_edge_of(ctx, b, load_bb):
     return (sw, t) if t is not None else None
 
 
+def guard_summary(ctx, tgt):
+    """For a crate-local validation helper: the comparisons it makes between values rooted at its parameters (or a
+    parameter and a constant) such that every Ok return lies behind the 'equal' edge.
+    Returns [(kind, x, y)] with kind 'pp' (x, y = (param, path)) or 'pc' (x = (param, path), y = constant)."""
+    prog = ctx.prog
+    rt = prog.types[tgt.locals[0]]
+    if not (rt.get("k") == "adt" and rt["def"] == "std::result::Result") or tgt.is_closure:
+        return []
+    rf = ctx.must(None).rf(tgt)
+    oks = [bb for bb, k in rf.forwarded.items() if k == "ok"]
+    if not oks:
+        return []
+    sl = Slicer(ctx.world, tgt)
+    out = []
+    for sw in tgt.normal_blocks():
+        c = cfgutil.eq_edges(tgt, sw)
+        if c is None:
+            continue
+        a, bop, t_eq, t_ne = c
+        if t_eq is None or not all(cfgutil.edge_dominates(tgt, (sw, t_eq), x) for x in oks):
+            continue
+        la, lb = sl.leaves_of_operand(a), sl.leaves_of_operand(bop)
+        if len(la) != 1 or len(lb) != 1:
+            continue
+        x, y = list(la)[0], list(lb)[0]
+        for (p, q) in ((x, y), (y, x)):
+            if p[0] == "param" and p[2] and q[0] == "param" and q[2] and p[1] != q[1] and p[2][-1] == q[2][-1]:
+                out.append(("pp", (p[1], p[2]), (q[1], q[2])))
+                break
+            if p[0] == "param" and p[2] and q[0] == "const":
+                out.append(("pc", (p[1], p[2]), q[1]))
+                break
+    return out
+
+
 def compare_sites(ctx, loaders, sstructs):
     """(body, switch bb, field, line, mismatch target, match target, loader-call bb) for every switch
     that compares <result of the settings loader>.F with <parameter>.F."""
@@ -297,6 +332,29 @@ def compare_sites(ctx, loaders, sstructs):
                     mismatch = t_true if op == "Ne" else t_false
                     match = t_false if op == "Ne" else t_true
                     out.append((b, bb, field, b.blocks[bb]["span"]["line"], mismatch, match, csite.bb))
+        # the comparison may be delegated to a validation helper: `check(&stored, &config)?`
+        rf = ctx.must(None).rf(b)
+        for site in b.calls():
+            tgt = prog.local_target(site)
+            if tgt is None or site.bb == csite.bb:
+                continue
+            for (kind, x, y) in guard_summary(ctx, tgt):
+                if kind != "pp":
+                    continue
+                for (p, q) in ((x, y), (y, x)):
+                    if p[0] - 1 >= len(site.term["args"]) or q[0] - 1 >= len(site.term["args"]):
+                        continue
+                    ls = sl.leaves_of_operand(site.term["args"][p[0] - 1], p[1])
+                    lc = sl.leaves_of_operand(site.term["args"][q[0] - 1], q[1])
+                    s_ = [l for l in ls if l[0] == "call" and l[2] == csite.bb and l[3]]
+                    c_ = [l for l in lc if l[0] == "param" and l[2]]
+                    if s_ and c_ and len(ls) == 1 and len(lc) == 1:
+                        oks = rf.ok_edges_of(site.bb)
+                        errs = rf.err_edges_of(site.bb)
+                        if len(oks) == 1 and len(errs) == 1 and oks[0][0] == errs[0][0]:
+                            out.append((b, oks[0][0], p[1][-1], b.blocks[site.bb]["span"]["line"], errs[0][1], oks[0][1],
+                                        csite.bb))
+                        break
     return out
 
 
@@ -324,6 +382,21 @@ def version_gate(ctx, r, loaders, sstructs):
                         named = [p for p, cst in prog.consts.items() if cst.get("v") == l2[1] and "VERSION" in p.upper()]
                         gates.append((bb, l1[-1][-1], l2[1], named, t_false if op == "Ne" else t_true,
                                       t_true if op == "Ne" else t_false, l1[1]))
+        rfb = ctx.must(None).rf(b)
+        for site in b.calls():
+            tgt = prog.local_target(site)
+            if tgt is None:
+                continue
+            for (kind, x, y) in guard_summary(ctx, tgt):
+                if kind != "pc" or x[0] - 1 >= len(site.term["args"]):
+                    continue
+                lx = sl.leaves_of_operand(site.term["args"][x[0] - 1], x[1])
+                if len(lx) == 1 and list(lx)[0][0] == "call" and list(lx)[0][-1]:
+                    oks = rfb.ok_edges_of(site.bb)
+                    errs = rfb.err_edges_of(site.bb)
+                    if len(oks) == 1 and len(errs) == 1 and oks[0][0] == errs[0][0]:
+                        named = [p for p, cst in prog.consts.items() if cst.get("v") == y and "VERSION" in p.upper()]
+                        gates.append((oks[0][0], x[1][-1], y, named, oks[0][1], errs[0][1], list(lx)[0][1]))
         r.check(len(gates) >= 1, "version-compare", b,
                 "the loader compares %s" % "; ".join("parsed.%s with %s (= %s)" % (g[1], g[2], ",".join(g[3]) or "literal")
                                                      for g in gates),
